@@ -810,6 +810,41 @@ def r18_no_container_keyed_by_raw_text(ctx, rule="C09.R18"):
     ctx.require(rule, 1)
 
 
+def r19_a_keyword_ends_at_any_blank(ctx, rule="C09.R19"):
+    """`spacing ... never changes meaning`: a TAB is a blank like a space (the lexer's own blank class says so).
+    The predicate that decides where a keyword ends - which characters may follow it - accepts every character
+    of the lexer's blank class and both line-end characters; were it narrower than the blank class, `CASE ELSE`
+    followed by a TAB would be an identifier.  Both predicates are evaluated on all 128 ASCII characters."""
+    from .. import charpred
+    prog = ctx.prog
+    eng = charpred.engine(prog)
+    lex = [f for f in prog.fns.values() if f.crate == "rusty_parser" and "::tokens::" in "::" + f.id and f.body is not None
+           and f.kind != "closure" and f.argc == 1 and "char" in f.body.locals[1]["ty"] and f.body.locals[0]["ty"] == "bool"]
+    blanks = [f for f in lex if "whitespace" in f.name or "blank" in f.name]
+    after_kw = [f for f in lex if "keyword" in f.name]
+    if len(blanks) != 1 or len(after_kw) != 1:
+        # by what they do: the blank class accepts ' ' and rejects 'A'; the after-keyword class rejects 'A' and '$'
+        tables = {f.id: charpred.accepted(eng, prog, ("fn", f))[0] for f in lex}
+        blanks = [f for f in lex if tables[f.id] and tables[f.id] <= {9, 11, 12, 32}]
+        after_kw = [f for f in lex if 32 in tables[f.id] and 65 not in tables[f.id] and 36 not in tables[f.id] and len(tables[f.id]) > 8]
+    if len(blanks) != 1 or len(after_kw) != 1:
+        raise CheckError("%s: the lexer's blank class / after-keyword class was not found (%d / %d candidates)"
+                         % (rule, len(blanks), len(after_kw)))
+    b_acc, b_und = charpred.accepted(eng, prog, ("fn", blanks[0]))
+    k_acc, k_und = charpred.accepted(eng, prog, ("fn", after_kw[0]))
+    if b_und or k_und or not b_acc:
+        raise CheckError("%s: a character class could not be evaluated (%d / %d undecided)" % (rule, len(b_und), len(k_und)))
+    need = b_acc | {10, 13}
+    missing = sorted(need - k_acc)
+    ctx.decide(not missing, rule, "%s:%s" % (rule, after_kw[0].name), after_kw[0].loc,
+               "every blank (%s) and both line-end characters may follow a keyword" % sorted(b_acc),
+               "%s does not let %s follow a keyword although %s counts them as blanks / they end a line: a keyword followed "
+               "by that character is read as an identifier (`CASE ELSE<TAB>` becomes a CASE on a variable named ELSE)"
+               % (after_kw[0].name, [repr(chr(c)) for c in missing], blanks[0].name))
+    ctx.analysed_units(rule, blank_class=sorted(b_acc), after_keyword_class_size=len(k_acc))
+    ctx.require(rule, 1)
+
+
 def run(ctx):
     common.install(ctx)
     r1_folding_pair(ctx)
@@ -832,3 +867,4 @@ def run(ctx):
     r16_label_is_name_then_colon(ctx)
     r17_one_definition_of_line_end(ctx)
     r18_no_container_keyed_by_raw_text(ctx)
+    r19_a_keyword_ends_at_any_blank(ctx)
